@@ -2,8 +2,8 @@
    nat, positive, Z, Q, ascii stay the extracted inductive types). *)
 From Coq Require Extraction.
 From Coq Require Import ExtrOcamlBasic ZArith QArith List Ascii.
-From SV Require Import Dbl LiteralModel LPFileModel.
+From SV Require Import Dbl LiteralModel LPFileModel DualModel.
 
 Extraction "../extract/C12/model.ml"
   denote denote_sci rat_intended rat_code lpf_value outcome_val nearest_doubleb overflowsb underflowsb print_q dyadic_val
-  lpf_image mps_image split_ranges mps_max_to_min drop_offset drop_unused used_mask.
+  lpf_image mps_image split_ranges mps_max_to_min drop_offset drop_unused used_mask dual_of.
